@@ -205,26 +205,45 @@ Definition command (r : registry) (n : name) (f : func) : registry * func * resu
     let w := wrap_with_server f1 in
     (mkreg (features r) (aset n w (commands r)) (feature_options r), f1, Ok).
 
-(* FeatureManager.thread()(f).  When the registered callable is f itself (no server injected)
-   marking the registry entry marks f as well. *)
+(* Function objects are identities (f_id) with mutable attributes.  A registration whose handler
+   takes no server stores THE FUNCTION OBJECT ITSELF (wrap_with_server returns f), so the same
+   function registered under several names is one object reachable from several entries: an entry
+   with e_inject = false stands for "the function object e_fid", and its e_thread field is that
+   object's marker.  A partial / async wrapper (e_inject = true) is a new object per registration
+   with a marker of its own.  Marking a function object therefore marks every entry that is it. *)
+Definition is_function (i : N) (e : entry) : bool := negb (e_inject e) && (e_fid e =? i).
+
+Definition mark_aliases (i : N) (l : list (name * entry)) : list (name * entry) :=
+  map (fun p => if is_function i (snd p) then (fst p, assign_thread_attr_e (snd p)) else p) l.
+
+(* assign_thread_attr(<function object i>) as seen from the registry *)
+Definition mark_function (i : N) (r : registry) : registry :=
+  mkreg (mark_aliases i (features r)) (mark_aliases i (commands r)) (feature_options r).
+
+(* assign_thread_attr(table[n]) where table[n] = e *)
+Definition mark_registered (r : registry) (t : regtype) (n : name) (e : entry) : registry :=
+  if e_inject e then
+    match t with
+    | RFeature => mkreg (aset n (assign_thread_attr_e e) (features r)) (commands r) (feature_options r)
+    | RCommand => mkreg (features r) (aset n (assign_thread_attr_e e) (commands r)) (feature_options r)
+    end
+  else mark_function (e_fid e) r.
+
+(* FeatureManager.thread()(f): the function's single (reg_type, reg_name) pair - the LAST successful
+   registration of that function object - selects the registered callable that gets the marker.
+   (f' : table[reg_name] is f itself or a wrapper of f in every reachable state, because reg_name
+   is only written by the registration that stores it and entries are never replaced.) *)
 Definition thread (r : registry) (f : func) : registry * func * result :=
   if f_async f then (r, f, Error EThread)
   else match f_reg f with
-       | Some (RFeature, n) =>
-         match aget n (features r) with
+       | Some (t, n) =>
+         match aget n (match t with RFeature => features r | RCommand => commands r end) with
          | Some e =>
-           (mkreg (aset n (assign_thread_attr_e e) (features r)) (commands r) (feature_options r),
-            (if e_inject e then f else assign_thread_attr_f f), Ok)
+           (mark_registered r t n e,
+            (if is_function (f_id f) e then assign_thread_attr_f f else f), Ok)
          | None => (r, f, Error EKey)       (* self.features[reg_name] raises KeyError *)
          end
-       | Some (RCommand, n) =>
-         match aget n (commands r) with
-         | Some e =>
-           (mkreg (features r) (aset n (assign_thread_attr_e e) (commands r)) (feature_options r),
-            (if e_inject e then f else assign_thread_attr_f f), Ok)
-         | None => (r, f, Error EKey)
-         end
-       | None => (r, assign_thread_attr_f f, Ok)      (* except AttributeError *)
+       | None => (mark_function (f_id f) r, assign_thread_attr_f f, Ok)      (* except AttributeError *)
        end.
 
 (* ------------------------------------------------------------------ one call = one step *)
